@@ -74,7 +74,7 @@ Definition walk_model (p : bytes) (n : Z) : bytes :=
   match sp_walk (S (length p)) p (Z.to_nat n) 0 with Some (_, r, _) => r | None => p end.
 
 Lemma wf_firstn n (p : bytes) : wf_bytes p -> wf_bytes (firstn n p).
-Proof. intros H. unfold wf_bytes in *. apply Forall_forall. intros x Hx. rewrite Forall_forall in H. apply H. eapply firstn_In; eassumption. Qed.
+Proof. intros H. rewrite <- (firstn_skipn n p) in H. apply wf_bytes_app in H. tauto. Qed.
 Lemma wf_suffix (r p : bytes) : suffix r p -> wf_bytes p -> wf_bytes r.
 Proof. intros [pre ->] H. apply wf_bytes_app in H. tauto. Qed.
 Lemma unbe2_nonneg (p : bytes) : wf_bytes p -> 0 <= unbe (firstn 2 p).
@@ -97,7 +97,7 @@ Qed.
 Theorem refine_sub_parse p hraw0 uraw0 hs p2 tot :
   wf_bytes p ->
   sp_walk (S (length (skipn 2 p))) (skipn 2 p) (Z.to_nat (unbe (firstn 2 p))) 0 = Some (hs, p2, tot) ->
-  (forall us p4 tot2, sp_walk (S (length (skipn 2 p2))) (skipn 2 p2) (Z.to_nat (unbe (firstn 2 p2))) 0 <> Some (us, p4, tot2) -> False) ->
+  sp_walk (S (length (skipn 2 p2))) (skipn 2 p2) (Z.to_nat (unbe (firstn 2 p2))) 0 <> None ->
   gen_sub_parse walk_model hraw0 uraw0 p =
   match sa_parse p with
   | Some (st, rest) => GOk (sa_hraw st, sa_uraw st, rest)
@@ -112,11 +112,12 @@ Proof.
   apply Nat.eqb_eq in T1. subst tot.
   pose proof (sp_walk_exact_rest _ _ _ _ _ W1) as E2. rewrite skipn_skipn' in E2.
   destruct (sp_walk_spec _ _ _ _ _ _ _ W1) as [S1 _].
-  assert (Hwf2 : wf_bytes p2).
-  { apply (wf_suffix _ _ S1). destruct (firstn_skipn 2 p) as []. rewrite <- (firstn_skipn 2 p) in Hwf. apply wf_bytes_app in Hwf. tauto. }
+  assert (Hwf1 : wf_bytes (skipn 2 p)).
+  { pose proof Hwf as H0. rewrite <- (firstn_skipn 2 p) in H0. apply wf_bytes_app in H0. tauto. }
+  assert (Hwf2 : wf_bytes p2) by exact (wf_suffix _ _ S1 Hwf1).
   assert (Hu : 0 <= unbe (firstn 2 p2)) by (apply unbe2_nonneg; exact Hwf2).
   destruct (sp_walk (S (length (skipn 2 p2))) (skipn 2 p2) (Z.to_nat (unbe (firstn 2 p2))) 0) as [[[us p4] tot2]|] eqn:W2.
-  2: { exfalso. apply (W2def [] [] 0%nat). discriminate. }
+  2: { exfalso. apply W2def. reflexivity. }
   destruct (walk_guard _ _ _ _ _ Hu W2) as [R2 G2]. rewrite R2, G2.
   destruct (tot2 =? Z.to_nat (unbe (firstn 2 p2)))%nat; cbn [negb]; [|reflexivity].
   cbn [sa_hraw sa_uraw sp_hashed_raw].
@@ -126,24 +127,43 @@ Proof.
   reflexivity.
 Qed.
 
-(* the slices that are kept, in the model's words: firstn (hl + 2) p and firstn (uhl + 2) p2 *)
-Corollary refine_sub_parse_kept p hraw0 uraw0 st rest hr ur rest' :
+(* the slices that are kept, in the model's words: on acceptance the code keeps firstn (hl + 2) p and firstn (uhl + 2) p2 *)
+Corollary refine_sub_parse_kept p hraw0 uraw0 st rest :
   wf_bytes p -> sa_parse p = Some (st, rest) ->
-  gen_sub_parse walk_model hraw0 uraw0 p = GOk (hr, ur, rest') ->
   let hl := Z.to_nat (unbe (firstn 2 p)) in
   let p2 := skipn (hl + 2) p in
   let uhl := Z.to_nat (unbe (firstn 2 p2)) in
-  hr = Some (firstn (hl + 2) p) /\ ur = Some (firstn (uhl + 2) p2) /\ rest' = rest.
+  gen_sub_parse walk_model hraw0 uraw0 p = GOk (Some (firstn (hl + 2) p), Some (firstn (uhl + 2) p2), rest).
 Proof.
-  intros Hwf Hs Hg. cbv zeta.
-  assert (Hp : exists hs p2 tot, sp_walk (S (length (skipn 2 p))) (skipn 2 p) (Z.to_nat (unbe (firstn 2 p))) 0 = Some (hs, p2, tot)).
-  { unfold sa_parse, subpackets_parse in Hs.
-    destruct (sp_walk (S (length (skipn 2 p))) (skipn 2 p) (Z.to_nat (unbe (firstn 2 p))) 0) as [[[hs p2] tot]|]; [eauto|discriminate]. }
-  destruct Hp as [hs [p2 [tot W1]]].
-  assert (W2 : forall us p4 tot2, sp_walk (S (length (skipn 2 p2))) (skipn 2 p2) (Z.to_nat (unbe (firstn 2 p2))) 0 <> Some (us, p4, tot2) -> False).
-  { intros us p4 tot2 N. unfold sa_parse, subpackets_parse in Hs. rewrite W1 in Hs.
-    destruct (negb (tot =? Z.to_nat (unbe (firstn 2 p)))%nat); [discriminate|].
-    destruct (sp_walk (S (length (skipn 2 p2))) (skipn 2 p2) (Z.to_nat (unbe (firstn 2 p2))) 0) as [[[us' p4'] tot2']|] eqn:E; [|discriminate].
-    (* the premise is about one triple: instantiate it with the walk's own result *)
-    clear N. exact I. }
-  Abort.
+  intros Hwf Hs. cbv zeta.
+  assert (Hs' := Hs). unfold sa_parse in Hs'.
+  destruct (subpackets_parse p) as [[sp r]|] eqn:Ep; [|discriminate].
+  destruct (subpackets_parse_rest _ _ _ Ep) as [Hraw _].
+  injection Hs' as <- <-.
+  unfold subpackets_parse in Ep.
+  destruct (sp_walk (S (length (skipn 2 p))) (skipn 2 p) (Z.to_nat (unbe (firstn 2 p))) 0) as [[[hs p2] tot]|] eqn:W1; [|discriminate].
+  destruct (negb (tot =? Z.to_nat (unbe (firstn 2 p)))%nat); [discriminate|].
+  assert (W2 : sp_walk (S (length (skipn 2 p2))) (skipn 2 p2) (Z.to_nat (unbe (firstn 2 p2))) 0 <> None).
+  { destruct (sp_walk (S (length (skipn 2 p2))) (skipn 2 p2) (Z.to_nat (unbe (firstn 2 p2))) 0); [discriminate|discriminate]. }
+  rewrite (refine_sub_parse p hraw0 uraw0 hs p2 tot Hwf W1 W2), Hs. cbn [sa_hraw sa_uraw]. rewrite Hraw. reflexivity.
+Qed.
+
+(* and a rejected buffer (either overrun) raises PGPError, provided the walks themselves do not raise *)
+Corollary refine_sub_parse_reject p hraw0 uraw0 hs p2 tot :
+  wf_bytes p ->
+  sp_walk (S (length (skipn 2 p))) (skipn 2 p) (Z.to_nat (unbe (firstn 2 p))) 0 = Some (hs, p2, tot) ->
+  sp_walk (S (length (skipn 2 p2))) (skipn 2 p2) (Z.to_nat (unbe (firstn 2 p2))) 0 <> None ->
+  sa_parse p = None -> gen_sub_parse walk_model hraw0 uraw0 p = GRaise "PGPError".
+Proof. intros Hwf W1 W2 Hn. rewrite (refine_sub_parse p hraw0 uraw0 hs p2 tot Hwf W1 W2), Hn. reflexivity. Qed.
+
+(* the premises of refine_sub_parse are inhabited: one hashed subpacket (length 1, type 2), empty unhashed area, one octet following *)
+Example refine_sub_parse_premises :
+  let p := [0; 2; 1; 2; 0; 0; 7] in
+  wf_bytes p /\
+  sp_walk (S (length (skipn 2 p))) (skipn 2 p) (Z.to_nat (unbe (firstn 2 p))) 0 = Some ([(2, false, [])], [0; 0; 7], 2%nat) /\
+  sp_walk (S (length (skipn 2 [0; 0; 7]))) (skipn 2 [0; 0; 7]) (Z.to_nat (unbe (firstn 2 [0; 0; 7]))) 0 <> None /\
+  gen_sub_parse walk_model None None p = GOk (Some [0; 2; 1; 2], Some [0; 0], [7]).
+Proof.
+  cbv zeta. split; [repeat constructor; lia|]. split; [vm_compute; reflexivity|]. split; [vm_compute; discriminate|].
+  vm_compute. reflexivity.
+Qed.
